@@ -15,13 +15,14 @@ VARIABLES l,       \* next trace line
           E,       \* element table
           XD,      \* ids removed by an explicit delete / remove call
           U,       \* updates emitted by local operations, in emission order: [ins, del]
+          SEEN,    \* element -> elements of its container its creator had integrated when creating it
           S,       \* replica id -> replica record
           cfg,     \* replica id -> [gc : BOOLEAN]
           failed,  \* current behaviour already has a violation
           viol,    \* set of <<bid, predicate, line>>
           drift,   \* set of <<bid, what, line>>: implementation-level prediction differs
           cnt      \* [beh, ev, checks] counters
-vars == <<l, ln0, bid, E, XD, U, S, cfg, failed, viol, drift, cnt>>
+vars == <<l, ln0, bid, E, XD, U, SEEN, S, cfg, failed, viol, drift, cnt>>
 
 Ev == Rec[l]
 Ids(q) == Range(q)
@@ -68,7 +69,7 @@ PlacementPredicted(E2, R, R2) ==
   IN \A c \in DOMAIN R2.lst : Without(Lst(pred, c), R2.gone) = R2.lst[c]
 
 (* checks common to every step of replica r: R -> R2 *)
-StepChecks(E2, XD2, r, R, R2, o, forced) ==
+StepChecks(E2, XD2, SN, r, R, R2, o, forced) ==
   << <<"C04_Once", C04_Once(R2)>>,
      <<"C04_Placed", C04_Placed(E2, R2)>>,
      <<"C04_Between", C04_Between(E2, R2)>>,
@@ -76,6 +77,7 @@ StepChecks(E2, XD2, r, R, R2, o, forced) ==
      <<"C04_NoResurrect", C04_NoResurrect(R, R2)>>,
      <<"C01_DepClosed", C01_DepClosed(E2, R2)>>,
      <<"C05_DeadExact", C05_DeadExact(E2, R2)>>,
+     <<"C05_CausalOrder", C05_CausalOrder(E2, SN, R2)>>,
      <<"C02_NothingLost", C02_NothingLost(R2)>>,
      <<"C02_DeletionsApplied", C02_DeletionsApplied(R2)>>,
      <<"C02_PendingIffMissing", C02_PendingIffMissing(E2, R2)>>,
@@ -107,7 +109,7 @@ Record(bad, dr) ==
 Reset ==
   /\ Ev.k = "reset"
   /\ bid' = Ev.bid /\ ln0' = l
-  /\ E' = EmptyFn /\ XD' = {} /\ U' = <<>>
+  /\ E' = EmptyFn /\ XD' = {} /\ U' = <<>> /\ SEEN' = EmptyFn
   /\ S' = [r \in {Ev.cfg.replicas[i].id : i \in 1..Len(Ev.cfg.replicas)} |-> EmptyReplica]
   /\ cfg' = [r \in {Ev.cfg.replicas[i].id : i \in 1..Len(Ev.cfg.replicas)} |->
                [gc |-> Ev.cfg.replicas[CHOOSE i \in 1..Len(Ev.cfg.replicas) : Ev.cfg.replicas[i].id = r].gc]]
@@ -118,7 +120,7 @@ Reset ==
 Skip ==  \* behaviour already failed, or an event this module does not interpret
   /\ Ev.k # "reset"
   /\ failed
-  /\ UNCHANGED <<ln0, bid, E, XD, U, S, cfg, failed, viol, drift, cnt>>
+  /\ UNCHANGED <<ln0, bid, E, XD, U, SEEN, S, cfg, failed, viol, drift, cnt>>
 
 PanicOrError(outcome) == outcome # "ok"
 
@@ -150,8 +152,12 @@ Local ==
              [] call.a = "fmt" -> visA = visB
              [] OTHER -> TRUE
          XD2 == IF call.a \in {"del", "rem"} THEN XD \cup (Range(visB) \ Range(visA)) ELSE XD
+         fresh == {us[i].id : i \in FreshIdx(us)}
+         SEEN2 == [x \in DOMAIN SEEN \cup fresh |->
+                     IF x \in DOMAIN SEEN THEN SEEN[x]
+                     ELSE Range(Lst(R.lst, us[CHOOSE i \in FreshIdx(us) : us[i].id = x].cont))]
          chk == IF ~ok THEN << <<"C04_Placed", FALSE>> >>
-                ELSE StepChecks(E2, XD2, r, R, R2, Ev.obs, call.a = "gcf")
+                ELSE StepChecks(E2, XD2, SEEN2, r, R, R2, Ev.obs, call.a = "gcf")
                      \o << <<"C03_NoFailure", Ev.outcome = "ok">>,
                            <<"C09_WireConsistent", WireConsistent(us) /\ Ev.wire = "">>,
                            <<"C04_FreshIds", \A i \in RealUnits(us) : us[i].id \notin DOMAIN E /\ us[i].id[1] = r>>,
@@ -162,7 +168,7 @@ Local ==
          dr == (IF ok /\ ~PlacementPredicted(E2, R, R2) THEN {"placement"} ELSE {})
                \cup (IF ok /\ ~StashTight(R2) THEN {"stash-not-tight"} ELSE {})
      IN /\ Record(Failing(chk), dr)
-        /\ E' = E2 /\ XD' = XD2
+        /\ E' = E2 /\ XD' = XD2 /\ SEEN' = SEEN2
         /\ U' = IF call.a = "gcf" THEN U ELSE Append(U, [ins |-> InsIds(us), del |-> Ids(Ev.upd.del)])
         /\ S' = [S EXCEPT ![r] = R2]
         /\ cnt' = [cnt EXCEPT !.ev = @ + 1, !.checks = @ + Len(chk)]
@@ -177,7 +183,7 @@ ApplyTo(r, payload, emit, outcome, wire, o, nev, hasfol, fol, extra(_, _, _)) ==
       ok == WellFormed(E2, o)
       changed == Have(R2) # Have(R) \/ (R2.dead \cup R2.gone) # (R.dead \cup R.gone)
       chk == IF ~ok THEN << <<"C04_Placed", FALSE>> >>
-             ELSE StepChecks(E2, XD, r, R, R2, o, FALSE)
+             ELSE StepChecks(E2, XD, SEEN, r, R, R2, o, FALSE)
                   \o << <<"C01_NoFailure", outcome = "ok">>,
                         <<"C09_WireConsistent", WireConsistent(us) /\ WireConsistent(emit.ins) /\ wire = "">>,
                         <<"C07_EmitIffChanged", nev = (IF changed THEN <<1, 1>> ELSE <<0, 0>>)>> >>
@@ -186,7 +192,7 @@ ApplyTo(r, payload, emit, outcome, wire, o, nev, hasfol, fol, extra(_, _, _)) ==
       dr == (IF ok /\ ~PlacementPredicted(E2, R, R2) THEN {"placement"} ELSE {})
             \cup (IF ok /\ ~StashTight(R2) THEN {"stash-not-tight"} ELSE {})
   IN /\ Record(Failing(chk), dr)
-     /\ E' = E2 /\ XD' = XD /\ U' = U
+     /\ E' = E2 /\ XD' = XD /\ U' = U /\ SEEN' = SEEN
      /\ S' = [S EXCEPT ![r] = R2]
      /\ cnt' = [cnt EXCEPT !.ev = @ + 1, !.checks = @ + Len(chk)]
 
@@ -223,7 +229,7 @@ SvOfUpdate ==
                    <<"C08_SvEq", ~gapfree \/ Ids(Ev.sv) \ {<<x[1], 0>> : x \in Ids(Ev.sv)} = SVOf(mi)>> >>
      IN /\ Record(Failing(chk), {})
         /\ cnt' = [cnt EXCEPT !.ev = @ + 1, !.checks = @ + Len(chk)]
-  /\ UNCHANGED <<ln0, bid, E, XD, U, S, cfg>>
+  /\ UNCHANGED <<ln0, bid, E, XD, U, SEEN, S, cfg>>
 
 (* state-vector sync: t applies what f encodes against a state vector of t *)
 Sync ==
@@ -245,9 +251,9 @@ Sync ==
 Nondet ==
   /\ Ev.k = "nondet" /\ ~failed
   /\ Record({"C01_Deterministic"}, {})
-  /\ UNCHANGED <<ln0, bid, E, XD, U, S, cfg, cnt>>
+  /\ UNCHANGED <<ln0, bid, E, XD, U, SEEN, S, cfg, cnt>>
 
-TInit == /\ l = 1 /\ ln0 = 0 /\ bid = "" /\ E = EmptyFn /\ XD = {} /\ U = <<>> /\ S = EmptyFn /\ cfg = EmptyFn /\ failed = FALSE
+TInit == /\ l = 1 /\ ln0 = 0 /\ bid = "" /\ E = EmptyFn /\ XD = {} /\ U = <<>> /\ SEEN = EmptyFn /\ S = EmptyFn /\ cfg = EmptyFn /\ failed = FALSE
          /\ viol = {} /\ drift = {} /\ cnt = [beh |-> 0, ev |-> 0, checks |-> 0]
 
 TNext == /\ l <= Len(Rec)
